@@ -5,6 +5,7 @@ import (
 	"fmt"
 	"go/token"
 	"strings"
+	"unicode/utf8"
 
 	"golang.org/x/tools/go/analysis"
 
@@ -111,6 +112,10 @@ func (r *Reporter) formatPrettyError(violation Violation) string {
 
 				// Add spaces to align the pointer
 				for i := 1; i < displayColumn; i++ {
+					// Columns count bytes; a multi-byte character occupies one cell
+					if i-1 < len(truncatedLine) && !utf8.RuneStart(truncatedLine[i-1]) {
+						continue
+					}
 					if i-1 < len(truncatedLine) && truncatedLine[i-1] == '\t' {
 						builder.WriteString("\t")
 					} else {
